@@ -291,7 +291,12 @@ OverrideSet(d, id, v) ==
                  i <= Len(DeclOf(d, x).fields)
                  /\ LET f == DeclOf(d, x).fields[i] IN
                     \/ f.kind \in {"size", "count", "elementsize", "fixed", "fixedenum", "reserved"}
-                    \/ IsFlag(DeclOf(d, x), f)}
+                    \/ IsFlag(DeclOf(d, x), f)
+                    (* a field of an ancestor that a constraint of id (or of one of its ancestors) fixes:     *)
+                    (* a constant of the encoding, like a fixed field ("constraints must match", C04)          *)
+                    \/ /\ f.id # "" /\ IsBitfield(d, f)
+                       /\ \E k \in 1..Len(Chain(d, id)) : Chain(d, id)[k].id = x
+                       /\ \E c \in 1..Len(AllCons(d, id)) : AllCons(d, id)[c].id = f.id}
       ref == EncodeType(d, id, v)
   IN UNION {LET decl == DeclOf(d, key[1])
                 f == decl.fields[key[2]]
